@@ -198,6 +198,19 @@ def pPrimeLog (s : String) : Option (List (Int × Bool)) := do
     | [c, a] => do let c ← pInt c; some (c, a = "1")
     | _ => none
 
+def genRun (name email : Text) (keysize : Nat) (nizk : Bool) (fuel : Nat) (coins : List Bytes)
+    (plog : List (Int × Bool)) (log : List (String × Bytes)) (d : Bool) (dflt : Nat) : String :=
+  match RabinGen.generate (mkOracles log dflt) (fun x => (plog.lookup x).getD d) name email keysize nizk fuel coins with
+  | .ok K => hexText (secText K)
+  | .error e => toString e
+
+/-- two replays of `generate` with different defaults for unknown queries of all three oracles -/
+def genReplay (name email : Text) (keysize : Nat) (nizk : Bool) (fuel : Nat) (coins : List Bytes)
+    (plog : List (Int × Bool)) (log : List (String × Bytes)) : String :=
+  let r1 : String := genRun name email keysize nizk fuel coins plog log true 0xAA
+  let r2 : String := genRun name email keysize nizk fuel coins plog log false 0x55
+  if r1 == r2 then r1 else "oracle-mismatch"
+
 /-- rabin.generate name email keysize nizk fuel [coins] [cand:ans] olog => sectext
     (the primality oracle is replayed from the log; unknown candidates get both defaults) -/
 def hGenerate : Handler
@@ -205,13 +218,7 @@ def hGenerate : Handler
     let name ← pText name; let email ← pText email; let keysize ← pNat keysize; let nizk ← pNat nizk
     let fuel ← pNat fuel; let coins ← pList coins; let coins ← coins.mapM pHex
     let plog ← pPrimeLog plog; let log ← pOLog log
-    -- two replays with different defaults for unknown queries of all three oracles
-    let run (d : Bool) (dflt : Nat) : String :=
-      match RabinGen.generate (mkOracles log dflt) (fun x => (plog.lookup x).getD d) name email keysize (nizk = 1) fuel coins with
-      | .ok K => hexText (secText K)
-      | .error e => toString e
-    let a := run true 0xAA; let b := run false 0x55
-    some (if a = b then a else "oracle-mismatch")
+    some (genReplay name email keysize (nizk = 1) fuel coins plog log)
   | _ => none
 
 def handlers : List (String × Handler) := [
